@@ -14,6 +14,7 @@
                   scalar node); the correspondence skips and counts these.
 -/
 import Kust.Node
+import Kust.Str
 namespace Kust
 namespace Fns
 open Node
@@ -289,7 +290,7 @@ def elementSetter (keys vals : List String) (elem : Option Node) (rn : Node) : O
 
 /-! ### PathGetter -/
 
-def trimSpace (s : String) : String := s.trimAscii.toString
+def trimSpace (s : String) : String := Str.trim s
 
 def cleanPath (p : List String) : List String :=
   (p.map trimSpace).filter (· ≠ "")
@@ -306,7 +307,7 @@ def atoi? (s : String) : Option Int :=
     let n : Nat := ds.foldl (fun a c => a * 10 + (c.toNat - '0'.toNat)) 0
     some (if neg then - (n : Int) else n)
 
-def isListIndex (p : String) : Bool := p.startsWith "[" && p.endsWith "]"
+def isListIndex (p : String) : Bool := Str.hasPrefix p "[" && Str.hasSuffix p "]"
 def isIdxNumber (p : String) : Bool :=
   match atoi? p with
   | some i => i ≥ 0
@@ -314,8 +315,8 @@ def isIdxNumber (p : String) : Bool :=
 
 /-- split `[name=value]` at the first `=` -/
 def splitIndexNameValue (p : String) : Option (String × String) :=
-  let inner := (if p.endsWith "]" then (p.dropEnd 1).toString else p)
-  let inner := (if inner.startsWith "[" then (inner.drop 1).toString else inner)
+  let inner := (if Str.hasSuffix p "]" then Str.dropRight p 1 else p)
+  let inner := (if Str.hasPrefix inner "[" then Str.dropLeft inner 1 else inner)
   let cs := inner.toList
   if cs.contains '=' then
     some (String.ofList (cs.takeWhile (· ≠ '=')), String.ofList ((cs.dropWhile (· ≠ '=')).drop 1))
